@@ -139,7 +139,14 @@ func (w *World) Prologue(c PrologueCfg) {
 	}
 	msgs := []sdk.Msg{&lptypes.MsgAddPool{Authority: w.Gov, Pool: lptypes.AddPool{AmmPoolId: 1, LeverageMax: math.LegacyNewDec(c.LevMax)}}}
 	if c.LevPool2 {
-		msgs = append(msgs, &lptypes.MsgAddPool{Authority: w.Gov, Pool: lptypes.AddPool{AmmPoolId: 2, LeverageMax: math.LegacyNewDec(c.LevMax)}})
+		// a second leveraged market: an oracle pool uelys/uusdc (leverage needs an oracle pool), created
+		// after the optional pool 3; its id is kept in w.ElysMarketPool
+		w.ElysMarketPool = 3
+		if c.Pool3 {
+			w.ElysMarketPool = 4
+		}
+		w.Step(5, w.Tx(u[0], w.CreatePoolMsg(u[0], PoolSpec{Oracle: true, Fee: c.Fee1, A: CoinI("uelys", elysAmt), B: Coin("uusdc", c.Scale), WA: 50, WB: 50})))
+		msgs = append(msgs, &lptypes.MsgAddPool{Authority: w.Gov, Pool: lptypes.AddPool{AmmPoolId: w.ElysMarketPool, LeverageMax: math.LegacyNewDec(c.LevMax)}})
 	}
 	if !w.GovExec("add pool", msgs...) {
 		panic("prologue: governance proposal enabling pool 1 did not pass")
